@@ -7,3 +7,11 @@ pub(crate) mod c51 {
     use super::super::*;
     include!(concat!(env!("LIBP2P_VERIF"), "/units/C51/registrations.rs"));
 }
+
+// C51 (discovery): verbatim body of Registrations::get on array stand-ins for
+// BiMap / HashMap / LruCache / HashSet.
+pub(crate) mod c51g {
+    #[allow(unused_imports)]
+    use super::super::*;
+    include!(concat!(env!("LIBP2P_VERIF"), "/units/C51/discover.rs"));
+}
